@@ -223,7 +223,11 @@ func (s *Server) followCheckSome(addr string, followc int, auth string,
 	if err != nil {
 		return 0, err
 	}
-	if pos == fullpos {
+	if pos == fullpos && pos == int64(s.aofsz) {
+		// The whole log was verified. When pos merely happens to be a command
+		// boundary short of the end, the part behind it was not compared
+		// with the leader and has to go like any other unverified tail:
+		// the leader is going to stream everything from pos on.
 		if s.opts.ShowDebugMessages {
 			log.Debug("follow: aof fully intact")
 		}
